@@ -527,6 +527,27 @@ def _add_other_section_contents(
                 sym.at_end = True
                 sym.referent = sect.blocks[-2]
 
+        # Likewise, CFI directives on the last block (e.g. the .cfi_endproc
+        # after a trailing return) take effect at the end of the previous
+        # block.
+        cfi_table = _auxdata_offsetmap.cfi_directives.get(module)
+        displacement_map = (
+            cfi_table.pop(sect.blocks[-1], None) if cfi_table else None
+        )
+        if displacement_map:
+            if len(sect.blocks) == 1:
+                raise NotImplementedError(
+                    "Cannot create a zero-sized block with CFI directives; "
+                    "try adding an instruction after them."
+                )
+
+            prev_block = sect.blocks[-2]
+            prev_directives = cfi_table.setdefault(prev_block, {}).setdefault(
+                prev_block.size, []
+            )
+            for _, directives in sorted(displacement_map.items()):
+                prev_directives.extend(directives)
+
         del sect.blocks[-1]
 
     cache.block_ordering[gtirb_sect].add_detached_blocks(sect.blocks)
